@@ -873,6 +873,9 @@ def run_e2e_shard(prop, spec):
     elif case == "hostile":
         v, nt, inc = run(hostile_case, backend, seed, counters)
         main = "e2e_probes"
+    elif case == "c16":
+        v, nt, inc = run(c16_case, backend, spec.get("workers", 2), seed, counters)
+        main = "e2e_allow_list_decisions"
     else:
         raise ValueError(case)
     seen, out = {}, []
@@ -895,3 +898,90 @@ def run(coro_fn, *a, timeout=900, **k):
         return [], [], ["e2e: watchdog (%d s) fired in %s" % (timeout, coro_fn.__name__)]
     except e2e.E2EError as e:
         return [], [], ["e2e: %s" % str(e)[:400]]
+
+
+# ---------------------------------------------------------------------------------------------------
+# C16: dynamic allow list enforced by EVERY worker process and from the first connection after a (re)start
+# ---------------------------------------------------------------------------------------------------
+async def c16_case(backend, workers, seed, counters):
+    r = random.Random(seed)
+    viols, nontrivial, inconcl = [], [], []
+    owner, member, outsider = (ref.key_from_seed("e2e-c16-%s" % n) for n in ("owner", "member", "outsider"))
+    srv = e2e.Server(backend=backend, workers=workers, overrides={
+        "dynamic_lists": {"check_interval": 7200, "allow_list_queries": [{"kinds": [3], "authors": [owner.pk]}]}},
+        storage_opts={"validators": ["nostr_relay.validators.is_signed", "nostr_relay.dynamic_lists.is_pubkey_allowed"]})
+    rp = {"mode": "e2e", "e2e": "c16", "backend": backend, "workers": workers, "seed": seed}
+    now = int(time.time())
+    # the list itself is stored before any list exists (nothing is enforced then)
+    srv.seed([ref.make_event(owner, kind=3, created_at=now - 100, tags=[["p", member.pk], ["p", owner.pk]], content="")])
+    n = [0]
+    conns = []
+
+    def V(key_, msg):
+        viols.append({"key": "e2e/%s/%s" % (backend, key_), "msg": "[e2e %s, %d worker process(es)] %s" % (backend, workers, msg), "replay": rp})
+
+    async def submit(c, key):
+        n[0] += 1
+        ev = ref.make_event(key, kind=1, created_at=now, tags=[], content="c16 e2e %d %d" % (seed, n[0]))
+        n0 = await c.send(["EVENT", ev])
+        fr = await c.wait_for(lambda fr: [m for m in fr if isinstance(m, list) and m[:1] == ["OK"]], timeout=30, since=n0)
+        return (fr[-1][2] if fr else None), ev
+
+    async def first_contact(phase):
+        """the very first connection a (re)started server serves: the list is in force already"""
+        c = await e2e.Client(srv, "first-" + phase).connect(timeout=30)
+        conns.append(c)
+        ok, ev = await submit(c, outsider)
+        bump(counters, "e2e_first_contacts")
+        nontrivial.append(h(["e2e-c16", backend, workers, "first-contact", phase]))
+        if ok is True:
+            V("allow-list/not-in-force-at-first-connection/" + phase, "%s: the first EVENT served, from a pubkey that is not on the stored allow list, was accepted" % phase)
+        elif ok is None:
+            inconcl.append("e2e c16: no answer to the first EVENT after %s" % phase)
+
+    try:
+        srv.start()
+        await first_contact("start")
+        # every worker process enforces the list
+        subs = await spread(srv, "w", 2, 40)
+        conns.extend(subs)
+        byw = {}
+        for c in subs:
+            byw.setdefault(c.worker, []).append(c)
+        counters["e2e_workers_checked"] = max(counters.get("e2e_workers_checked", 0), len([w for w in byw if w]))
+        if workers > 1 and len([w for w in byw if w is not None]) < 2:
+            inconcl.append("e2e c16: all connections landed on one worker process")
+        for w, cs in byw.items():
+            c = cs[0]
+            ok_m, _ = await submit(c, member)
+            ok_o, ev = await submit(c, outsider)
+            bump(counters, "e2e_allow_list_decisions", 2)
+            nontrivial.append(h(["e2e-c16", backend, workers, "per-worker"]))
+            if ok_o is True:
+                V("allow-list/not-enforced-by-a-worker", "worker process %s accepted an EVENT of a pubkey that is not on the allow list (%d p-tagged keys stored)" % (w, 2))
+            if ok_m is not True:
+                V("allow-list/listed-key-refused", "worker process %s refused an EVENT of a listed pubkey (%r)" % (w, ok_m))
+        for c in conns:
+            await c.close()
+        del conns[:]
+        # orderly restart on the same database
+        srv.stop()
+        srv.start()
+        await first_contact("restart")
+        # a worker dies and gunicorn forks a new one
+        if srv.mode == "gunicorn":
+            pids = srv.worker_pids()
+            for pid in pids:
+                os.kill(pid, signal.SIGKILL)
+            t0 = time.time()
+            while time.time() - t0 < 30:
+                new = srv.worker_pids()
+                if len(new) >= workers and not set(new) & set(pids):
+                    break
+                await asyncio.sleep(0.05)
+            await first_contact("worker-respawn")
+    finally:
+        for c in conns:
+            await c.close()
+        srv.stop()
+    return viols, nontrivial, inconcl
